@@ -46,11 +46,11 @@ Ltac cl :=
   lazymatch goal with |- _ <= _ => idtac | |- @eq nat _ _ => idtac end;
   cbv [fr leaf d_last_descendant d_link_generator d_self_and d_base_match d_rule_matches_string
        d_rule_matches_tag d_tag_string d_module_getattr d_is_empty_element d_setup d_setitem d_nav_new
-       d_index d_extract d_decompose d_append_fresh d_soup_init_empty d_new_string list_max fold_right];
+       d_index d_extract d_append_fresh d_soup_init_empty d_new_string list_max fold_right];
   solve [ lia | cbn; lia
         | cbn; cbv [fr leaf d_last_descendant d_link_generator d_self_and d_base_match d_rule_matches_string
                     d_rule_matches_tag d_tag_string d_module_getattr d_is_empty_element d_setup d_setitem d_nav_new
-                    d_index d_extract d_decompose d_append_fresh d_soup_init_empty d_new_string list_max fold_right];
+                    d_index d_extract d_append_fresh d_soup_init_empty d_new_string list_max fold_right];
           cbn; lia ].
 
 Lemma leaf_1 : leaf = 1.
@@ -90,14 +90,14 @@ Proof.
   destruct (rule_matches r (Some (name_of e))); cbn [fst].
   - fall; cl.
   - destruct (prefixed_name e) as [pn|].
-    + destruct (rule_matches r (Some pn)); cbn [fst]; fall; try cl; exact IH.
+    + match goal with |- context [if ?b then _ else _] => destruct b end; cbn [fst]; fall; try cl; exact IH.
     + cbn [fst]. fall; try cl; exact IH.
 Qed.
 
 Lemma d_attribute_match_le rules v : d_attribute_match rules v <= 4.
 Proof.
   unfold d_attribute_match. apply fr_le. constructor; [|constructor].
-  apply fr_le. destruct rules; [constructor|]. destruct (attr_strings v); fall; cl.
+  apply fr_le. destruct rules; fall; cl.
 Qed.
 
 Lemma attr_rules_loop_le ars e : Forall (fun x => x <= 4) (fst (attr_rules_loop ars e)).
@@ -163,16 +163,14 @@ Qed.
 Lemma filter_calls_le c elems found : Forall (fun x => x <= 6) (filter_calls c elems found).
 Proof.
   revert found. induction elems as [|e rest IH]; intros found; cbn [filter_calls]; [constructor|].
-  destruct (truthy e); [|apply IH].
   pose proof (strainer_match_le c e) as H.
   destruct (strainer_match c e) as [d m]. cbn [fst] in H.
-  assert (Hh : Forall (fun x => x <= 6) ((if is_tag e then [leaf] else []) ++ [d])).
-  { apply Forall_app; split; [destruct (is_tag e); fall; cl|fall; exact H]. }
   destruct m.
-  - destruct (c_limit c) as [lim|].
-    + destruct (lim <=? S found); [exact Hh|apply Forall_app; split; [exact Hh|apply IH]].
-    + apply Forall_app; split; [exact Hh|apply IH].
-  - apply Forall_app; split; [exact Hh|apply IH].
+  - destruct (c_limit c) as [[|lim]|].
+    + constructor; [exact H|apply IH].
+    + destruct (S lim <=? S found); [constructor; [exact H|constructor]|constructor; [exact H|apply IH]].
+    + constructor; [exact H|apply IH].
+  - constructor; [exact H|apply IH].
 Qed.
 
 Lemma d_strainer_find_all_le c elems gen : gen <= 6 -> d_strainer_find_all c elems gen <= 8.
@@ -190,13 +188,11 @@ Proof.
   pose proof (d_strainer_init_le c) as Hi.
   destruct (c_string c); try exact Hslow.
   destruct (c_attrs c); try exact Hslow.
-  destruct (limit_falsy c); try exact Hslow.
-  destruct (c_name c) as [|r|l]; try exact Hslow.
-  - apply fr_le. constructor; [lia|]. constructor; [|constructor]. unfold fr; cl.
-  - destruct r as [s|b|b|s]; try exact Hslow.
-    + apply fr_le. fall; cl.
-    + destruct b; try exact Hslow.
-      apply fr_le. constructor; [lia|]. constructor; [|constructor]. unfold fr; cl.
+  assert (Hfast : fr [d_strainer_init c; gen; leaf] <= 9) by (apply fr_le; fall; [lia|lia|cl]).
+  destruct (c_name c) as [|r|l]; try exact Hslow; [exact Hfast|].
+  destruct r as [s|b|b|s]; try exact Hslow.
+  - destruct (limit_falsy c); [exact Hfast|exact Hslow].
+  - destruct b; [exact Hfast|exact Hslow].
 Qed.
 
 Lemma d_find_all_le c e : d_find_all c e <= 10.
@@ -361,11 +357,7 @@ Proof. unfold d_stripped_strings, fr. cbn [list_max fold_right]. pose proof (d_a
 
 (* ---------- copying, pickling ---------- *)
 Lemma d_tag_init_nobuilder_le e : d_tag_init_nobuilder e <= 2.
-Proof.
-  unfold d_tag_init_nobuilder. apply fr_le. apply Forall_app; split.
-  - apply Forall_const_map. intros; cl.
-  - fall; cl.
-Qed.
+Proof. unfold d_tag_init_nobuilder. cl. Qed.
 Lemma d_copy_self_le e ctx : d_copy_self e ctx <= 14.
 Proof.
   unfold d_copy_self. destruct (soup_of e); [cl|].
@@ -504,7 +496,10 @@ Proof.
   apply Forall_const_map. intros; vm_compute; lia.
 Qed.
 Lemma d_clear_le e b : d_clear e b <= 4.
-Proof. unfold d_clear. apply fr_le. apply Forall_const_map. intros; destruct b; vm_compute; lia. Qed.
+Proof.
+  unfold d_clear. apply fr_le. apply Forall_const_map. intros k. destruct b; [|vm_compute; lia].
+  unfold d_decompose. pose proof (d_descendants_le k). destruct (is_tag k); unfold fr, d_extract, d_index, d_last_descendant, leaf, fr; cbn [list_max fold_right]; lia.
+Qed.
 Lemma d_set_string_le e : d_set_string e <= 6.
 Proof.
   unfold d_set_string. apply fr_le. constructor; [pose proof (d_clear_le e false); lia|].
@@ -518,7 +513,12 @@ Proof.
   - pose proof (d_descendants_le e). unfold fr; cbn [list_max fold_right]; lia.
   - constructor; [apply d_smooth_contents_le|]. apply Forall_const_map. intros; apply d_smooth_contents_le.
 Qed.
-Lemma edit_constants : d_extract = 2 /\ d_decompose = 3 /\ d_new_string = 3 /\ d_index = 1.
+Lemma d_decompose_eq e : d_decompose e = 3.
+Proof.
+  unfold d_decompose. pose proof (d_descendants_le e). pose proof (d_descendants_ge e).
+  destruct (is_tag e); unfold fr, d_extract, d_index, d_last_descendant, leaf, fr; cbn [list_max fold_right]; lia.
+Qed.
+Lemma edit_constants : d_extract = 2 /\ d_new_string = 3 /\ d_index = 1.
 Proof. repeat split. Qed.
 
 (* nested BeautifulSoup arguments (which the library never builds) are the only way to make an
